@@ -27,6 +27,7 @@ type Config struct {
 	SchedMode  int  // 0 = run-to-block, 1 = symbolic scheduler
 	CtxBound   int  // max preemptive context switches (symbolic scheduler)
 	EnvFires   int  // max environment (ticker/timer) firings per path
+	EnvLazy    bool // tickers/timers fire only when every goroutine is blocked (no "fires now" choice)
 	Solver     string
 	TimeoutMS  int
 	Workers    int
@@ -161,6 +162,7 @@ type Run struct {
 	onces map[*Value]bool
 	curFrame *frame
 	stubs    map[string]bool
+	timersQuiet bool
 	realBacked map[string]bool
 	stubFuncs map[string]Value
 	pcSet    map[*Term]bool
